@@ -2,6 +2,7 @@ package goat
 
 import (
 	"os"
+	"path/filepath"
 	"sync"
 
 	"github.com/monshunter/goat/pkg/log"
@@ -279,7 +280,8 @@ func (c *CleanExecutor) clean() error {
 	if empty {
 		log.Debugf("Removing goat package: %s", c.cfg.GoatPackagePath)
 		verifhook.Boundary("removeall", c.cfg.GoatPackagePath)
-		os.RemoveAll(c.cfg.GoatPackagePath)
+		// os.RemoveAll refuses a path that ends in "." (a configured "goat/./" or "goat/.")
+		os.RemoveAll(filepath.Clean(c.cfg.GoatPackagePath))
 	}
 	return nil
 }
